@@ -1,4 +1,5 @@
 import ServlinVerif.Driver.C05
+import ServlinVerif.Model.Event
 /- Driver for suites c04 / c09 / c10: the full server with a scripted handler. -/
 namespace Servlin
 namespace Drv.C04
@@ -12,6 +13,7 @@ inductive Beh where
   | drop
   | panic
   | file (code declared : Nat) (actual : Option Nat)   -- response with a file body (`none` = file missing)
+  | events (n : Nat)                                    -- event stream of n messages, then closed
 deriving Repr, DecidableEq
 
 structure SReq where
@@ -35,6 +37,7 @@ def parseBeh (s : String) : Beh :=
     | [c, d, a] => .file (c.toNat?.getD 0) (d.toNat?.getD 0) (if a == "m" then none else a.toNat?)
     | _ => .panic
   else
+  if k == "E" then .events n else
   if k == "n" then .normal n else if k == "g" then .getBody n else if k == "a" then .always n
   else if k == "d" then .drop else .panic
 
@@ -86,6 +89,9 @@ def handlerOf (reqs : List SReq) (v : ReqView) : HandlerOut :=
   | .always m => .getBody m
   | .drop => .drop
   | .panic => .panic
+  | .events n =>
+    .normal { code := 200, ctype := some (str "text/event-stream"),
+              body := ⟨none, { pieces := (List.range n).map fun i => EventModel.encode (.message (str s!"e{i+1}-{ps}")) }⟩ }
   | .file code declared actual =>
     let content : Bytes := (List.range (actual.getD 0)).map fun i => (97 + i % 26).toUInt8
     .normal { code := code, ctype := some (str "application/octet-stream"),
